@@ -8,6 +8,9 @@ import CfrVerif.Model.Vanilla
 import CfrVerif.Model.External
 import CfrVerif.Model.Parallel
 import CfrVerif.Model.Named
+import CfrVerif.Model.Dispatch
+import CfrVerif.Model.Cli
+import CfrVerif.Model.Worklist
 /-!
 # `cfrmodel` : the model (L1) at `α = Float` behind a line protocol
 
@@ -329,13 +332,244 @@ partial def drainInfos (it : InfoIter Float) (acc : List String) : List String :
   | none => acc
   | some ((l, ai), it') => drainInfos it' (drainActs ai (s!"I{l}" :: acc))
 
+/-! ## the command-line layer (`Model/Cli.lean`) -/
+
+def pFloats : P (List Float) := do
+  let k ← pNat
+  let mut out : Array Float := #[]
+  for _ in [0:k] do out := out.push (← pFloat)
+  pure out.toList
+
+def pOptFloats : P (Option (List Float)) := do
+  let (a, i) ← get
+  let s ← tok
+  if s == "-" then pure none else
+    set (a, i)
+    pure (some (← pFloats))
+
+/-- `t <outcome> <pays>` | `c <info> <outcome> <optpays> <n> (<name> <prob> <node>)*n` |
+`p <num> <info> <name|-> <outcome> <optpays> <n> (<act> <node>)*n` -/
+partial def pEfg : P (Efg Float) := do
+  let t ← tok
+  if t == "t" then
+    let oc ← pNat
+    let pays ← pFloats
+    pure (.term oc pays)
+  else if t == "c" then
+    let info ← pNat
+    let oc ← pNat
+    let pays ← pOptFloats
+    let n ← pNat
+    let mut names : Array Nat := #[]
+    let mut probs : Array Float := #[]
+    let mut ks : Array (Efg Float) := #[]
+    for _ in [0:n] do
+      names := names.push (← pNat)
+      probs := probs.push (← pFloat)
+      ks := ks.push (← pEfg)
+    pure (.chance info names.toList probs.toList ks.toList oc pays)
+  else if t == "p" then
+    let num ← pNat
+    let info ← pNat
+    let name ← pOptNat
+    let oc ← pNat
+    let pays ← pOptFloats
+    let n ← pNat
+    let mut acts : Array Nat := #[]
+    let mut ks : Array (Efg Float) := #[]
+    for _ in [0:n] do
+      acts := acts.push (← pNat)
+      ks := ks.push (← pEfg)
+    pure (.player num info name acts.toList ks.toList oc pays)
+  else throw s!"bad efg token {t}"
+
+/-- `t <pay>` | `c <info|-> <n> (<name> <prob> <node>)*n` | `p <1|2> <info> <n> (<act> <node>)*n` -/
+partial def pJState : P (JState Float) := do
+  let t ← tok
+  if t == "t" then
+    pure (.terminal (← pFloat))
+  else if t == "c" then
+    let info ← pOptNat
+    let n ← pNat
+    let mut names : Array Nat := #[]
+    let mut probs : Array Float := #[]
+    let mut ks : Array (JState Float) := #[]
+    for _ in [0:n] do
+      names := names.push (← pNat)
+      probs := probs.push (← pFloat)
+      ks := ks.push (← pJState)
+    pure (.chance info names.toList probs.toList ks.toList)
+  else if t == "p" then
+    let pl ← pNat
+    let info ← pNat
+    let n ← pNat
+    let mut acts : Array Nat := #[]
+    let mut ks : Array (JState Float) := #[]
+    for _ in [0:n] do
+      acts := acts.push (← pNat)
+      ks := ks.push (← pJState)
+    pure (.player (pl == 1) info acts.toList ks.toList)
+  else throw s!"bad json-state token {t}"
+
+/-- `<k> (<infoset number> <label of its decimal string>)*k` -/
+def pNumNames : P (Nat → Nat) := do
+  let k ← pNat
+  let mut l : Array (Nat × Nat) := #[]
+  for _ in [0:k] do
+    let n ← pNat
+    let lab ← pNat
+    l := l.push (n, lab)
+  let tbl := l.toList
+  -- a number the request does not list gets a label no string of the request has
+  pure (fun n => (assocFind tbl n).getD (1000000000 + n))
+
+/-- `<nplayers> <tree>` -/
+def pEfgFile : P (EfgFile Float) := do
+  let n ← pNat
+  let root ← pEfg
+  pure ⟨n, root⟩
+
+def pFormat : P InputFormat := do
+  let s ← tok
+  if s == "auto" then pure .auto else if s == "gambit" then pure .gambit
+  else if s == "json" then pure .json else throw s!"bad input format {s}"
+
+def pKind : P InputKind := do
+  let s ← tok
+  if s == "stdin" then pure .stdin else if s == "json" then pure .dotJson
+  else if s == "efg" then pure .dotEfg else if s == "other" then pure .other
+  else throw s!"bad input kind {s}"
+
+/-- `<F|S|E> <discount> <max_iters> <max_regret> <parallel> <clip> <seed>` -/
+def pOpts : P (CliOpts Float × Nat) := do
+  let m ← tok
+  let method ← (if m == "F" then pure Method.full else if m == "S" then pure Method.sampled
+    else if m == "E" then pure Method.external else throw s!"bad method {m}")
+  let d ← tok
+  let discount ← (if d == "vanilla" then pure Discount.vanilla else if d == "lcfr" then pure Discount.lcfr
+    else if d == "cfr-plus" then pure Discount.cfrPlus else if d == "dcfr" then pure Discount.dcfr
+    else if d == "dcfr-prune" then pure Discount.dcfrPrune else throw s!"bad discount {d}")
+  let iters ← pNat
+  let thr ← pThr
+  let par ← pNat
+  let clip ← pFloat
+  let seed ← pNat
+  pure (⟨clip, thr, iters, par, method, discount⟩, seed)
+
+def cliErrStr : CliError → String
+  | .gameError e => s!"err game-error {gameErr e}"
+  | .solveError .threadOverflow => "err solve-error ThreadOverflow"
+  | .solveError .threadSpawn => "err solve-error ThreadSpawnError"
+  | e => s!"err {e.category}"
+
+partial def rawStr : Raw Float → String
+  | .term p => s!"T {fHex p}"
+  | .chance i ws ks =>
+    " ".intercalate (s!"C {optNat i} {ks.length}" :: (ws.zip ks).map (fun (w, k) => s!"{fHex w} {rawStr k}"))
+  | .player one i as ks =>
+    " ".intercalate (s!"P {if one then 1 else 2} {i} {ks.length}" :: (as.zip ks).map (fun (a, k) => s!"{a} {rawStr k}"))
+
+def cliOutStr (sum : Float) (o : CliOut Float) : String :=
+  s!"{fHex sum} {fHex o.playerOneUtility} {fHex o.playerTwoUtility} {fHex o.playerOneRegret} {fHex o.playerTwoRegret} {fHex o.regret} {namedStr o.playerOneStrategy} {namedStr o.playerTwoStrategy}"
+
+/-- the environment the driver assumes: 64-bit, one hardware thread reported, pools can be built -/
+def driverEnv : Env := ⟨18446744073709551615, some 1, fun _ => true⟩
+
+/-- diagnostics for the harness (not part of the model): was the pruned profile chosen, the two
+total regrets the choice compared, and for the deterministic single-threaded solve the smallest
+relative margin of a discontinuous decision on the trajectory -/
+def cliDiag (o : CliOpts Float) (seed : Nat) (g : Game Float) : String :=
+  let draw := drawHash seed.toUInt64
+  match gameSolve driverEnv Sched.seq g o.method o.iters o.maxRegret o.parallel
+      (some o.discount.intoParams) draw with
+  | .error _ => "D 0 0000000000000000 0000000000000000 0000000000000000"
+  | .ok out =>
+    let info := getInfo g (fun p => if p then out.stratOne else out.stratTwo)
+    let pOne := truncate o.clipThreshold out.stratOne
+    let pTwo := truncate o.clipThreshold out.stratTwo
+    let pInfo := getInfo g (fun p => if p then pOne else pTwo)
+    let pruned := decide (pInfo.regret < info.regret)
+    let margin :=
+      if o.method == Method.full && o.parallel == 1 && o.iters ≤ 100000 then
+        marginsVanilla g false o.discount.intoParams draw o.maxRegret o.iters 1 (SolveSt.init g) fInf
+      else fInf
+    s!"D {if pruned then 1 else 0} {fHex info.regret} {fHex pInfo.regret} {fHex margin}"
+
+/-- the whole program on an already loaded game -/
+def cliRun (o : CliOpts Float) (seed : Nat) (loaded : Except CliError (Game Float × Float)) : String :=
+  match loaded with
+  | .error e => cliErrStr e
+  | .ok (g, sum) =>
+    match runGame driverEnv Sched.seq (drawHash seed.toUInt64) o g sum with
+    | .error e => cliErrStr e
+    | .ok out => s!"ok {cliOutStr sum out} {cliDiag o seed g}"
+
+/-- evaluate a given (printed) profile on the loaded game through the output assembly of `main` -/
+def cliEval (loaded : Except CliError (Game Float × Float)) : P String := do
+  let n1 ← pNamed
+  let n2 ← pNamed
+  match loaded with
+  | .error e => pure (cliErrStr e)
+  | .ok (g, sum) =>
+    match fromNamed g n1 n2 with
+    | .error e => pure s!"err strat {stratErr e}"
+    | .ok (a, b) =>
+      match assemble g sum (getInfo g (fun p => if p then a else b)) a b with
+      | .error e => pure (cliErrStr e)
+      | .ok out => pure s!"ok {cliOutStr sum out}"
+
+def cliCmd (c : String) : P String := do
+  if c == "cli-gambit" then
+    let fmt ← pFormat
+    let kind ← pKind
+    let (o, seed) ← pOpts
+    let numName ← pNumNames
+    let f ← pEfgFile
+    pure (cliRun o seed (loadGame numName fmt kind ⟨none, some f⟩))
+  else if c == "cli-json" then
+    let fmt ← pFormat
+    let kind ← pKind
+    let (o, seed) ← pOpts
+    let s ← pJState
+    pure (cliRun o seed (loadGame (fun n => n) fmt kind ⟨some s, none⟩))
+  else if c == "cli-none" then
+    -- neither third-party parser accepts the bytes
+    let fmt ← pFormat
+    let kind ← pKind
+    match loadGame (fun n => n) fmt kind (⟨none, none⟩ : Parsed Float) with
+    | .error e => pure (cliErrStr e)
+    | .ok _ => pure "ok"
+  else if c == "cli-raw" then
+    let w ← tok
+    if w == "gambit" then
+      let numName ← pNumNames
+      let f ← pEfgFile
+      match gambitRaw numName f with
+      | .error e => pure (cliErrStr e)
+      | .ok (raw, sum) => pure s!"ok {fHex sum} {rawStr raw}"
+    else if w == "json" then
+      let s ← pJState
+      pure s!"ok {fHex 0.0} {rawStr s.toRaw}"
+    else throw s!"bad cli-raw format {w}"
+  else if c == "cli-eval" then
+    let w ← tok
+    if w == "gambit" then
+      let numName ← pNumNames
+      let f ← pEfgFile
+      cliEval (gambitFromAst numName f)
+    else if w == "json" then
+      let s ← pJState
+      cliEval (jsonFromState s)
+    else throw s!"bad cli-eval format {w}"
+  else throw s!"unknown command {c}"
+
 def cmd : P String := do
   let c ← tok
   if c == "compile" then
     withGame fun g => pure s!"ok {gameStr g}"
   else if c == "eval" then
     withGame fun g => withProfile g fun σ => do
-      let i := getInfo g σ
+      let i := getInfoWL g σ  -- the crate's own work-list schedule (Model/Worklist.lean)
       pure s!"ok {fHex i.util} {fHex i.regretOne} {fHex i.regretTwo}"
   else if c == "import" then
     withGame fun g => do
@@ -418,7 +652,7 @@ def cmd : P String := do
     let i ← pNat
     let ps ← pNat
     pure s!"ok {fHex (drawU seed.toUInt64 k i ps)}"
-  else throw s!"unknown command {c}"
+  else cliCmd c
 
 def handle (line : String) : String :=
   let toks := (line.trimAscii.toString.splitOn " ").filter (· != "")
